@@ -272,7 +272,7 @@ def inst_index(blocks, spec):
             cost *= 2 * (3 if (s[2] or 1) < 0 else 1)
     return Instance(f"index[blocks={nm},idx={spec}]", body, dict(blocks=blocks, index=spec),
                     unit="normalize_index+slice_array+SliceSlicesIntegers.chunks/_layer", api_replay=api,
-                    cost=cost * max(blocks) ** 2, wall_s=600)
+                    cost=cost * max(blocks) ** 2, wall_s=1800)
 
 
 _VREC = {}
